@@ -260,6 +260,9 @@ C16T_HAS_MEMBER(m_events)
 C16T_HAS_MEMBER(m_removed_timeouts)
 
 // optional internal observations (heap layout of m_events, content of m_removed_timeouts)
+template <class C> static void collect_slots(const C &ids, vector<int> *out) {
+  for (typename C::const_iterator it = ids.begin(); it != ids.end(); ++it) out->push_back(pool::slot_of(*it) + 1);
+}
 template <bool B> struct tm_int { template <class TM> static string get(TM *) { return ""; } };
 template <> struct tm_int<true> {
   template <class TM> struct QAccess : public TM::event_queue_t {
@@ -277,9 +280,7 @@ template <> struct tm_int<true> {
     }
     s += "|r";
     vector<int> rm;
-    for (typename std::set<ola::thread::timeout_id>::const_iterator it = tm->m_removed_timeouts.begin();
-         it != tm->m_removed_timeouts.end(); ++it)
-      rm.push_back(pool::slot_of(*it) + 1);
+    collect_slots(tm->m_removed_timeouts, &rm);     // whatever container the ids are kept in
     std::sort(rm.begin(), rm.end());
     for (size_t i = 0; i < rm.size(); i++) s += (i ? "," : "") + vh::str(rm[i]);
     return s;
@@ -401,6 +402,36 @@ static void register_timer(bool rep, bool ms_overload, unsigned long long v, int
     else g_server->RegisterSingleTimeout(iv, ola::NewSingleCallback(&fired_one, id));
   }
 }
+// interval expressions built with the real constructors / operators:
+//   u<us> | p<sec>.<usec> | M<ms> | *<k>(<expr>) | +(<expr>)(<expr>)
+static TimeInterval parse_iexp(const string &t, size_t *i) {
+  char k = t[*i]; (*i)++;
+  if (k == 'u' || k == 'M') {
+    size_t j = *i; while (j < t.size() && isdigit(t[j])) j++;
+    unsigned long long v = vh::num(t.substr(*i, j - *i)); *i = j;
+    if (k == 'u') return TimeInterval(static_cast<int64_t>(v));
+    return TimeInterval(static_cast<int32_t>(v / 1000), static_cast<int32_t>(v % 1000 * 1000));   // as the ms overloads do
+  }
+  if (k == 'p') {
+    size_t j = *i; while (j < t.size() && isdigit(t[j])) j++;
+    long sec = atol(t.substr(*i, j - *i).c_str()); *i = j + 1;
+    j = *i; while (j < t.size() && isdigit(t[j])) j++;
+    long usec = atol(t.substr(*i, j - *i).c_str()); *i = j;
+    return TimeInterval(static_cast<int32_t>(sec), static_cast<int32_t>(usec));
+  }
+  if (k == '*') {
+    size_t j = *i; while (j < t.size() && isdigit(t[j])) j++;
+    unsigned int f = static_cast<unsigned int>(vh::num(t.substr(*i, j - *i))); *i = j + 1;   // skip '('
+    TimeInterval a = parse_iexp(t, i); (*i)++;                                             // skip ')'
+    return a * f;
+  }
+  // '+'
+  (*i)++; TimeInterval a = parse_iexp(t, i); (*i)++;
+  (*i)++; TimeInterval b = parse_iexp(t, i); (*i)++;
+  TimeInterval r = a; r += b;   // TimeInterval offers operator+= (TimerAdd)
+  return r;
+}
+
 struct Deferred { bool rep; unsigned long long us; int id; bool done; ola::io::LoopbackDescriptor *desc; };
 static void loop_cb(Deferred *d) {
   if (d->done) return;
@@ -450,6 +481,17 @@ static string run_backend(const string &payload, bool force_select, bool *early)
           unsigned long long v = vh::num(g[1]);
           int count = g.size() > 2 ? static_cast<int>(vh::num(g[2])) : 1;   // register <count> such timers
           for (int k = 0; k < count; k++) register_timer(rep, o[0] == 'm', v, ser++);
+          break;
+        }
+        case 'e': {     // e<rep>,<interval expression>
+          size_t comma = rest.find(',');
+          bool rep = rest.substr(0, comma) == "1";
+          size_t pos = 0; string ex = rest.substr(comma + 1);
+          TimeInterval iv = parse_iexp(ex, &pos);
+          int id = ser++;
+          g_interval[id] = static_cast<uint64_t>(iv.AsInt()); g_due[id] = now_us() + g_interval[id];
+          if (rep) server.RegisterRepeatingTimeout(iv, ola::NewCallback(&fired_rep, id));
+          else server.RegisterSingleTimeout(iv, ola::NewSingleCallback(&fired_one, id));
           break;
         }
         case 'L': case 'D': {     // the timer is registered during the next iteration, by a loop / descriptor callback
